@@ -561,6 +561,8 @@ func runParse(c *ctx, prop string) error {
 			src = c.only
 		} else if i < len(probes) {
 			src, style = probes[i], "known-finding-probe"
+		} else if d := c.corpusAt(i-len(probes), 1); d != nil {
+			src, style = []byte(d.Document), "regression-corpus"
 		} else {
 			doc := o.Pipeline()
 			src, style = renderStyles(rng, doc)
